@@ -239,7 +239,9 @@ namespace bluetoe {
 
             void yes_no_response( bool response ) override
             {
-                assert( this->state() == details::sm_pairing_state::user_response_wait );
+                // a response might come late, after the pairing failed or the connection got lost
+                if ( this->state() != details::sm_pairing_state::user_response_wait )
+                    return;
 
                 this->state( response
                     ? details::sm_pairing_state::user_response_success
@@ -383,7 +385,9 @@ namespace bluetoe {
 
             void yes_no_response( bool response ) override
             {
-                assert( this->state() == details::sm_pairing_state::user_response_wait );
+                // a response might come late, after the pairing failed or the connection got lost
+                if ( this->state() != details::sm_pairing_state::user_response_wait )
+                    return;
 
                 this->state( response
                     ? details::sm_pairing_state::user_response_success
